@@ -92,6 +92,99 @@ fn func_cases(run: &mut Run, rng: &mut Rng, thorough: bool) {
     });
 }
 
+fn ms_text(v: u64) -> String { if (50_000..150_000).contains(&v) { "N".into() } else { v.to_string() } }
+fn srec_text(r: &hook::VRecord) -> String {
+    format!("{},{},{},{},{},{},{},{},{},{},{},{},{}", r.tsn, r.len, ms_text(r.sent_ms), r.transmit_count, r.missing_reports,
+        r.abandoned as u8, r.fast_retransmit as u8, r.needs_retransmit as u8,
+        r.fast_retransmit_ms.map(ms_text).unwrap_or("-".into()), r.in_flight as u8, r.acked as u8,
+        r.max_retransmits.map(|v| v.to_string()).unwrap_or("-".into()), r.has_expiry as u8)
+}
+fn q_text(q: &[hook::VRecord]) -> String { if q.is_empty() { "-".into() } else { q.iter().map(srec_text).collect::<Vec<_>>().join(" ") } }
+
+fn rand_queue(rng: &mut Rng, maxn: u64) -> Vec<hook::VRecord> {
+    let r0 = rng.next() as u32;
+    let base = *rng.pick(&[100u32, 0xFFFF_FFFA, 0x7FFF_FFFC, 0, r0]);
+    let n = rng.range(0, maxn) as usize;
+    let mut m = std::collections::BTreeMap::new();
+    for _ in 0..n {
+        let tsn = base.wrapping_add(rng.below(12) as u32);
+        let pr = rng.chance(1, 4);
+        m.insert(tsn, hook::VRecord { tsn, len: *rng.pick(&[16usize, 20, 300, 1188, 1188]), sent_ms: *rng.pick(&[0u64, 500, 900, 200_000]),
+            transmit_count: *rng.pick(&[1u32, 1, 2, 7, 8, 9]), missing_reports: rng.below(4) as u8, abandoned: rng.chance(1, 8),
+            fast_retransmit: rng.chance(1, 5), needs_retransmit: rng.chance(1, 4), fast_retransmit_ms: None, in_flight: rng.chance(2, 3),
+            acked: rng.chance(1, 5), stream_id: 1, ssn: 0, flags: 3, max_retransmits: if pr { Some(rng.below(3) as u16) } else { None },
+            has_expiry: pr && rng.chance(1, 3) });
+    }
+    m.into_values().collect()
+}
+
+/// `handle_timeout`, the TLP probe and `transmit()` run as functions on loaded sender states
+fn sender_cases(run: &mut Run, rng: &mut Rng, thorough: bool) {
+    let rt = tokio::runtime::Builder::new_current_thread().enable_all().build().unwrap();
+    rt.block_on(async {
+        let mut eps = vec![];
+        for (i, mb) in [0usize, 1, 16].iter().enumerate() {
+            let mut cfg = EpCfg::default();
+            cfg.max_burst = *mb;
+            eps.push((*mb, Endpoint::new(58_000 + 2 * i as u16, 58_001 + 2 * i as u16, true, &cfg, &[]).await));
+        }
+        let n = if thorough { 12_000 } else { 2_000 };
+        for k in 0..n {
+            let q = rand_queue(rng, 9);
+            let cwnd = *rng.pick(&[4800usize, 6000, 12_000, 100_000]);
+            let flight: usize = q.iter().filter(|r| r.in_flight).map(|r| r.len).sum();
+            match k % 3 {
+                0 => {
+                    let ep = &eps[0].1;
+                    ep.sctp.verif_load_sender(&q, &[], cwnd, flight, 100_000, 7, false);
+                    let _ = ep.sctp.verif_handle_timeout().await;
+                    let s = ep.sctp.verif_snapshot();
+                    let after = ep.sctp.verif_sent_queue();
+                    let marked = after.iter().filter(|r| r.needs_retransmit).count() as i64 - q.iter().filter(|r| r.needs_retransmit).count() as i64;
+                    if marked > 4 { run.fail("t3:marks-more-than-retransmit-burst", &format!("t3 {}", q_text(&q)), &format!("{marked} newly marked")); }
+                    run.case("t3", &format!("{cwnd} {flight} 120 8 {}", q_text(&q)), &format!("cwnd={} flight={} | {}", s.cwnd, s.flight_size, q_text(&after)), after != q);
+                }
+                1 => {
+                    let ep = &eps[0].1;
+                    ep.sctp.verif_load_sender(&q, &[], cwnd, flight, 100_000, 7, false);
+                    let _ = ep.sctp.verif_tlp_probe();
+                    let s = ep.sctp.verif_snapshot();
+                    let after = ep.sctp.verif_sent_queue();
+                    run.case("tlp", &format!("{flight} {}", q_text(&q)), &format!("flight={} | {}", s.flight_size, q_text(&after)), after != q);
+                }
+                _ => {
+                    let (mb, ep) = { let e = &mut eps[rng.below(3) as usize]; (e.0, &mut e.1) };
+                    let no = rng.range(0, 12) as usize;
+                    let out: Vec<(u16, u32, u16, u8, usize, Option<u16>, bool)> = (0..no).map(|j| (1u16, 53u32, j as u16, 3u8,
+                        *rng.pick(&[0usize, 1, 3, 100, 1171, 1172, 1172, 1172]), if rng.chance(1, 6) { Some(2u16) } else { None }, false)).collect();
+                    let rwnd = *rng.pick(&[0u32, 1000, 1188, 2000, 4096, 6000, 100_000]);
+                    let fl = *rng.pick(&[flight, flight, 0, flight + 3000]);
+                    let next = q.last().map(|r| r.tsn.wrapping_add(1)).unwrap_or(*rng.pick(&[5u32, 0xFFFF_FFFE]));
+                    let sack = rng.chance(1, 4);
+                    ep.sctp.verif_load_sender(&q, &out, cwnd, fl, rwnd, next, sack);
+                    while ep.out_rx.try_recv().is_ok() {}
+                    let _ = ep.sctp.verif_transmit().await;
+                    let mut bytes = 0usize; let mut pk = 0usize;
+                    while let Ok(p) = ep.out_rx.try_recv() { bytes += p.len() - 12; pk += 1; if p.len() > 1200 && q.iter().all(|r| r.len <= 1188) { run.fail("size:packet-exceeds-1200", "tx", &format!("{}", p.len())); } }
+                    let s = ep.sctp.verif_snapshot();
+                    let after = ep.sctp.verif_sent_queue();
+                    let newc = no - s.outbound_queue.len();
+                    // oracle: with the window closed nothing new leaves
+                    let fl_after_rex: usize = fl + q.iter().filter(|r| r.needs_retransmit && !r.in_flight).map(|r| r.len).sum::<usize>();
+                    if (rwnd as usize) <= fl_after_rex && newc > 0 { run.fail("window:new-data-with-no-available-window", &format!("tx rwnd={rwnd} flight={fl_after_rex}"), &format!("{newc} new chunks")); }
+                    if newc > 0 { run.count("tx_new_data"); }
+                    if s.outbound_queue.len() > 0 { run.count("tx_window_limited"); }
+                    let input = format!("{cwnd} {fl} {rwnd} {next} {} {mb} {} / {}", sack as u8, q_text(&q),
+                        out.iter().map(|o| format!("{},{},{},{},{},{},{}", o.0, o.1, o.2, o.3, o.4, o.5.map(|v| v.to_string()).unwrap_or("-".into()), o.6 as u8)).collect::<Vec<_>>().join(" "));
+                    run.case("tx", &input, &format!("bytes={bytes} pk={pk} flight={} next={} outq={} | {}", s.flight_size, s.next_tsn, s.outbound_queue.len(), q_text(&after)), bytes > 0);
+                }
+            }
+        }
+        run.count_n("sender_function_cases", n as u64);
+        for (_, e) in &eps { e.shutdown(); }
+    });
+}
+
 // ------------------------------------------------------------------------------------------
 // (b) live runs
 
@@ -325,6 +418,7 @@ pub fn run(args: &Args) {
     let mut run = Run::new("c13", &args.out);
     let mut rng = Rng::new(args.seed);
     func_cases(&mut run, &mut rng, args.tier_thorough);
+    sender_cases(&mut run, &mut rng, args.tier_thorough);
     let cs = cases(args, &mut rng);
     let nthreads = std::env::var("VERIF_THREADS").ok().and_then(|v| v.parse().ok()).unwrap_or(6usize);
     let next = std::sync::atomic::AtomicUsize::new(0);
